@@ -256,7 +256,9 @@ impl Env<'_> {
     /// that keeps pulling after the first error (as `query_collect` and `execute_mixed` do,
     /// which collect the whole stream before they look at it): the stream has to end.
     fn drain(&self, o: ExecuteOptions, obs: &mut Obs) -> Result<(), Failure> {
-        const EXTRA: usize = 4096;
+        // the same allowance as for a failing run as a whole; every remaining input row may
+        // legitimately produce one more (cheap) error item, an endless stream cannot finish
+        let allowance = self.t_base * 10 + Duration::from_secs(5);
         let desc = format!("{o:?}");
         let params = Params::with_execute_options(o);
         let q = self.q;
@@ -274,13 +276,18 @@ impl Env<'_> {
                 }
             };
             let mut extra = 0usize;
-            while extra < EXTRA {
+            let t0 = Instant::now();
+            let mut ended = false;
+            while extra % 1024 != 0 || t0.elapsed() <= allowance {
                 match it.next() {
-                    None => break,
+                    None => {
+                        ended = true;
+                        break;
+                    }
                     Some(_) => extra += 1,
                 }
             }
-            Ok(Some((rows, extra, first)))
+            Ok(Some((rows, if ended { extra } else { usize::MAX }, first)))
         });
         match r {
             Err((loc, m)) => Err(Failure::new(format!("panic@{loc}"), format!("panic while draining after a limit error: {m}\n  query: {q}\n  options: {desc}"))),
@@ -290,11 +297,12 @@ impl Env<'_> {
                 obs.class("drained-after-limit-error");
                 obs.class_if(first.contains("imeout"), "drained-after-timeout");
                 obs.sub_eval(None);
-                if extra >= EXTRA {
+                obs.class_if(extra != usize::MAX && extra >= 1024, "drained->=1024-items-after-the-error");
+                if extra == usize::MAX {
                     let kind = if first.contains("imeout") { "timeout" } else { "limit" };
                     return Err(Failure::new(
                         format!("error-stream-never-ends:{kind}"),
-                        format!("after {rows} rows and the error `{first}` the result stream yields {EXTRA} further items and still does not end\n  query: {q}\n  options: {desc}"),
+                        format!("after {rows} rows and the error `{first}` the result stream is still yielding items {allowance:?} later (10x the unlimited run + 5 s)\n  query: {q}\n  options: {desc}"),
                     ));
                 }
                 Ok(())
@@ -321,7 +329,7 @@ impl Env<'_> {
 
 pub fn run(ctx: &mut RunCtx) {
     ctx.assume("soft_timeout_ms is 0 (disabled), 3.6e9 ms, or 1 ms; with 1 ms the wall clock decides which of the two allowed outcomes occurs (complete result or limit error), never whether the run passes; elapsed time is only checked against 10x the unlimited run + 5 s");
-    ctx.assume("'stops within a bounded amount of extra work' is also read from the consumer's side: after the first limit error the result stream must end within 4096 further pulls");
+    ctx.assume("'stops within a bounded amount of extra work' is also read from the consumer's side: after the first limit error the result stream must end within 10x the unlimited run + 5 s of further pulling (one error item per remaining input row is tolerated, an endless stream is not)");
     ctx.assume("results are compared as multisets of rows; lists inside rows (collect) are compared in order because the input order of every generated pipeline is deterministic");
     let cases = ctx.tier.pick(700, 20_000);
     let test = |c: &Case, obs: &mut Obs| -> CaseResult {
@@ -435,7 +443,7 @@ pub fn run(ctx: &mut RunCtx) {
     };
     ctx.explore(
         "pipelines",
-        "generated query pipelines (source: UNWIND range, range x range, cartesian product, variable-length expansion on a dense graph, list comprehension; 0-2 middle stages: filter, ORDER BY [LIMIT], DISTINCT, collect+UNWIND, CALL subquery, OPTIONAL MATCH + WHERE, fan-out, range inside a predicate; final: rows, aggregates, grouped collect, ORDER BY SKIP LIMIT, DISTINCT, list projection, UNION) on a generated dense graph; per case: complete result under generous limits, bisection of every limit dimension (each probe checked), then generated limit combinations around the thresholds with timeout 0, huge or (results of >= 50 rows) 1 ms; each run must be the complete result or a ResourceLimitExceeded error, and after a limit error the stream must end within 4096 further pulls; non-trivial = at least one run had a limit below what the complete result needed (distinct = distinct (query, options) pairs that failed with the limit error)",
+        "generated query pipelines (source: UNWIND range, range x range, cartesian product, variable-length expansion on a dense graph, list comprehension; 0-2 middle stages: filter, ORDER BY [LIMIT], DISTINCT, collect+UNWIND, CALL subquery, OPTIONAL MATCH + WHERE, fan-out, range inside a predicate; final: rows, aggregates, grouped collect, ORDER BY SKIP LIMIT, DISTINCT, list projection, UNION) on a generated dense graph; per case: complete result under generous limits, bisection of every limit dimension (each probe checked), then generated limit combinations around the thresholds with timeout 0, huge or (results of >= 50 rows) 1 ms; each run must be the complete result or a ResourceLimitExceeded error, and after a limit error the stream must end (within 10x the unlimited run + 5 s of pulling); non-trivial = at least one run had a limit below what the complete result needed (distinct = distinct (query, options) pairs that failed with the limit error)",
         cases,
         case,
         test,
